@@ -615,9 +615,9 @@ func rulesBedSkip(c *Ctx, r *Report) {
 	for _, a := range atoms {
 		a = strings.TrimPrefix(a, "!")
 		switch {
-		case a == "(\"\" == "+text+")":
+		case a == "(\"\" == "+text+")" || a == "(\"\" != "+text+")" || a == "(0 == builtin:len("+text+"))" || a == "(0 != builtin:len("+text+"))" || a == "(0 < builtin:len("+text+"))":
 			sawEmpty = true
-		case a == "(35 == "+text+"[0])":
+		case a == "(35 == "+text+"[0])" || a == "(35 != "+text+"[0])":
 			sawHash = true
 		case strings.Contains(a, "ReadString(") && (strings.Contains(a, "nil") || strings.Contains(a, "G:EOF")):
 			// the read error
